@@ -568,6 +568,10 @@ var tsTabSpecs = []tsTabSpec{
 	{"day", "Australia/Lord_Howe", time.Date(2024, 4, 4, 12, 0, 0, 0, time.UTC)},
 	{"day", "Australia/Lord_Howe", time.Date(2024, 10, 3, 12, 0, 0, 0, time.UTC)},
 	{"week", "America/New_York", time.Date(2024, 2, 28, 12, 0, 0, 0, time.UTC)},
+	// weeks around the change back to standard time (a 169 h week: "start + 168 h" is still inside it)
+	{"week", "America/New_York", time.Date(2024, 10, 16, 12, 0, 0, 0, time.UTC)},
+	{"week", "Europe/Berlin", time.Date(2024, 10, 9, 12, 0, 0, 0, time.UTC)},
+	{"week", "Australia/Lord_Howe", time.Date(2024, 3, 20, 12, 0, 0, 0, time.UTC)},
 	{"month", "Europe/Berlin", time.Date(2024, 2, 10, 12, 0, 0, 0, time.UTC)},
 	{"month", "America/New_York", time.Date(2024, 9, 10, 12, 0, 0, 0, time.UTC)},
 	// the longer calendar periods, in zones far from UTC (the instants of a case are carried in other locations: reloc)
